@@ -315,13 +315,22 @@ func ruleRefShapes(c *Ctx) {
 		fDir := p.Field("server.Subscription.direct")
 		tryDel := p.Method("server.wsConn.tryDelete")
 		sp := &Spec{}
-		isSubCount := func(st *ssa.Store) bool {
+		isSubCount := func(t *Tracer, fr *Frame, st *ssa.Store, own *types.Var) bool {
 			b, ok := st.Val.(*ssa.BinOp)
 			if !ok || b.Op != token.SUB {
 				return false
 			}
-			prm, ok := b.Y.(*ssa.Parameter)
-			return ok && prm.Name() == "count"
+			// the count parameter, or — where the release is clamped to what is held — the counter itself
+			y := t.Resolve(fr, b.Y).V
+			if prm, ok := y.(*ssa.Parameter); ok {
+				if bt, isB := prm.Type().Underlying().(*types.Basic); isB && bt.Info()&types.IsInteger != 0 {
+					return true
+				}
+			}
+			if f, _ := fieldLoad(y); f != nil && f == own {
+				return true
+			}
+			return false
 		}
 		sp.Classify = func(t *Tracer, fr *Frame, in ssa.Instruction) []Ev {
 			for _, fk := range []struct {
@@ -329,7 +338,7 @@ func ruleRefShapes(c *Ctx) {
 				k string
 			}{{fInd, "indirect-=count"}, {fISent, "indirectsent-=count"}, {fDir, "direct-=count"}} {
 				if st, ok := isStoreTo(in, fk.f); ok {
-					if isSubCount(st) {
+					if isSubCount(t, fr, st, fk.f) {
 						return []Ev{{Kind: fk.k}}
 					}
 					return []Ev{{Kind: "store?"}}
